@@ -1942,6 +1942,7 @@ def S0 : Scanners where
   scanDB := fun d c =>
     if c = "bash1" then [mk "bash-1" d]
     else if c = "bash2+curl" then [mk "bash-2" d, mk "curl-7" d]
+    else if c = "bash1+curl" then [mk "bash-1" d, mk "curl-7" d]
     else if c = "X" then [mk "X" d]
     else []
   fecos := [langEco, goEco]
@@ -2023,6 +2024,11 @@ def rootOpaque : List FSLayer := [
 def dirReplaced : List FSLayer := [
   { hash := "L0", entries := [("a/x", .file "requests1")] },
   { hash := "L1", entries := [("a", .file "not a directory any more")] }]
+
+/-- a distribution upgrade: the release file changes, a package of the old release stays installed -/
+def distUpgrade : List FSLayer := [
+  { hash := "L0", entries := [(dpkgDB, .file "bash1"), ("etc/os-release", .file "debian11")] },
+  { hash := "L1", entries := [(dpkgDB, .file "bash1+curl"), ("etc/os-release", .file "debian12")] }]
 
 /-- two different layers under one digest (a digest collision: the layer sorter cannot tell them apart) -/
 def digestCollision : List FSLayer := [
